@@ -125,6 +125,22 @@ fn k_c03_image(depth: u8, region: u8) {
   }
 }
 
+/// the totality / range clauses alone (no containment oracle): cheap, so decided at many depths
+fn k_c03_range(depth: u8, region: u8) {
+  let x: f64 = kani::any();
+  let y: f64 = kani::any();
+  kani::assume(in_image(x, y, 8.881784197001252e-16));
+  kani::assume(match region { 0 => y > 1.0, 1 => y >= -1.0 && y <= 1.0, _ => y < -1.0 });
+  set_plane(x, y);
+  let layer = hp::nested::get_or_create(depth);
+  kani::cover!(x == 4.0, "x = 4 (seam or base cell corner line)");
+  kani::cover!(x == 8.0, "x = 8");
+  let (h, dx, dy) = layer.hash_with_dxdy(0.0, 0.0);
+  assert!(h < spec_n_hash(depth), "C03: hash_with_dxdy out of range");
+  let lo = -9.094947017729282e-13;   // -2^-40: "up to rounding"
+  assert!(dx >= lo && dx <= 1.0 && dy >= lo && dy <= 1.0, "C03: offsets not in [0, 1] (up to rounding)");
+}
+
 fn k_c03_guard(depth: u8, which: u8) {
   let h: u64 = kani::any();
   kani::assume(h >= spec_n_hash(depth));
